@@ -167,6 +167,12 @@ func authClass(a string) string {
 		return "a"
 	case hostC:
 		return "c"
+	case hostKLong:
+		return "k8s-fqdn"
+	case "api.internal.svc":
+		return "k8s-short-form"
+	case hostKShort:
+		return "service-named-like-a-short-form"
 	case "b.example.com":
 		return "b(under-wildcard,not-in-registry)"
 	case hostD1:
@@ -204,7 +210,7 @@ func runCase(t *testing.T, res *engine.Result, c caseSpec, verbose bool) {
 	rel := c.relevantReadings()
 	decisions := map[string]map[string]bool{}
 	for _, p := range proxies {
-		if (c.Split > 0 || c.Shape == shapeG2) && p.Kind != "gateway" {
+		if (c.Split > 0 || c.Shape == shapeG2 || c.Shape == shapeS2) && p.Kind != "gateway" {
 			// a host defined by several VirtualServices is only defined for gateways
 			continue
 		}
@@ -252,7 +258,7 @@ func runCase(t *testing.T, res *engine.Result, c caseSpec, verbose bool) {
 						}
 					}
 				}
-				if req.Authority == hostA {
+				if req.Authority == hostA || req.Authority == hostKLong {
 					lk := fmt.Sprintf("%s:%d", p.Kind, l.Port)
 					if decisions[lk] == nil {
 						decisions[lk] = map[string]bool{}
@@ -275,6 +281,9 @@ func runCase(t *testing.T, res *engine.Result, c caseSpec, verbose bool) {
 				pk := p.Kind
 				if c.Shape == shapeG2 {
 					pk = "gateway(" + c.gatewayFor(strings.ToLower(stripPort(req.Authority))) + ")"
+				}
+				if c.Shape == shapeS2 {
+					pk = "gateway(two-servers)"
 				}
 				// label the disagreement: prefer the reading under which the reference picks the very
 				// rule Envoy picked (then only the action differs)
@@ -339,6 +348,9 @@ func runCase(t *testing.T, res *engine.Result, c caseSpec, verbose bool) {
 				case gotRule != "" && rep.Why == gotRule:
 					// same rule, different action
 					key = fmt.Sprintf("action|%s:%d|%s|want=%s|got=%s", pk, l.Port, rep.ActionName, rep.Decision, got.Decision)
+				case (gotRule != "" || gotDesc == "none(vhost)") && rep.MatchName == "" && (rep.Why == "default" || rep.Why == "unmanaged" || strings.HasPrefix(rep.Why, "none(no ")):
+					// a VirtualService's virtual host took a request that no VirtualService covers
+					key = fmt.Sprintf("vhost|%s:%d|svc=%v|auth=%s|want=%s|got=virtual-service", pk, l.Port, c.Svc, authClass(req.Authority), wantClass)
 				case gotRule == "" && gotDesc != "none(vhost)":
 					// the VirtualService's virtual host was not reached at all (or one was reached that should not exist)
 					if wantClass == "rule" || wantClass == "none" {
@@ -427,8 +439,8 @@ func decisionKind(d string) string {
 }
 
 func (c caseSpec) shapeKey() string {
-	if c.Shape == shapeG2 {
-		return "G2"
+	if c.Shape >= shapeG2 {
+		return shapeNames[c.Shape]
 	}
 	return fmt.Sprintf("%s,svc=%v,bind=%s", shapeNames[c.Shape], c.Svc, bindNames[c.Bind])
 }
@@ -442,7 +454,7 @@ func (c caseSpec) checkOrder(res *engine.Result, p proxySpec, l listenerSpec, rc
 		if len(vh.GetRoutes()) == 0 {
 			continue
 		}
-		if p.Kind == "gateway" && c.Shape == shapeG2 {
+		if p.Kind == "gateway" {
 			// the rules selected for a virtual host are those of the Gateway serving its domain
 			p.Gateway = c.gatewayFor(strings.ToLower(vh.GetDomains()[0]))
 			if p.Gateway == "" {
@@ -468,6 +480,22 @@ func (c caseSpec) checkOrder(res *engine.Result, p proxySpec, l listenerSpec, rc
 			if v == nil {
 				continue // default / passthrough routes
 			}
+			covers := false
+			for _, d := range vh.GetDomains() {
+				for _, hh := range v.Hosts {
+					if ok, _ := hostMatch(hh, strings.TrimSuffix(strings.ToLower(d), ".")); ok {
+						covers = true
+					}
+				}
+			}
+			if !covers && okSome {
+				okSome, vsn = false, n
+				why = "alien-virtual-service:" + n + ": the virtual host (domains " + strings.Join(vh.GetDomains(), ",") + ") holds routes of " + n + " whose hosts " + strings.Join(v.Hosts, ",") + " cover none of its domains"
+				for _, r := range groups[n] {
+					gotNames = append(gotNames, r.GetName())
+				}
+				continue
+			}
 			var names []string
 			for _, r := range groups[n] {
 				names = append(names, r.GetName())
@@ -487,6 +515,35 @@ func (c caseSpec) checkOrder(res *engine.Result, p proxySpec, l listenerSpec, rc
 				okSome, why, vsn, gotNames = false, w1, n, names
 			}
 		}
+		if p.Kind == "gateway" && okSome {
+			// a gateway virtual host is built per host name: every VirtualService bound to the gateway
+			// with exactly that host and some rule selected for it (under every reading) contributes routes
+			for _, v := range c.virtualServices() {
+				named := false
+				for _, hh := range v.Hosts {
+					for _, d := range vh.GetDomains() {
+						named = named || strings.EqualFold(hh, d)
+					}
+				}
+				if !named || groups[v.Name] != nil {
+					continue
+				}
+				must := true
+				for _, rd := range readings {
+					if len(v.expectedEntries(p, l.Port, rd)) == 0 {
+						must = false
+					}
+				}
+				if must {
+					okSome, vsn = false, v.Name
+					why = "dropped-virtual-service:" + v.Name + ": " + v.Name + " (hosts " + strings.Join(v.Hosts, ",") + ") has rules selected for this gateway but no route of it is in the virtual host with domains " + strings.Join(vh.GetDomains(), ",")
+					for _, r := range vh.GetRoutes() {
+						gotNames = append(gotNames, routeVS(r)+"/"+r.GetName())
+					}
+					break
+				}
+			}
+		}
 		if len(order) > 1 || c.vsByName(order[0]) != nil {
 			res.Count("vhosts_checked_for_rule_order", 1)
 		}
@@ -497,7 +554,9 @@ func (c caseSpec) checkOrder(res *engine.Result, p proxySpec, l listenerSpec, rc
 		// key: kind of problem + the match shape of the route at which it shows
 		parts := strings.SplitN(why, ":", 3)
 		at := "start"
-		if m := routeNameRe.FindStringSubmatch(strings.TrimSpace(parts[1])); m != nil {
+		if parts[0] == "alien-virtual-service" || parts[0] == "dropped-virtual-service" {
+			at = parts[1]
+		} else if m := routeNameRe.FindStringSubmatch(strings.TrimSpace(parts[1])); m != nil {
 			var i int
 			fmt.Sscan(m[1], &i)
 			if v := c.vsByName(vsn); v != nil && i < len(v.Rules) {
@@ -507,6 +566,9 @@ func (c caseSpec) checkOrder(res *engine.Result, p proxySpec, l listenerSpec, rc
 		pk := p.Kind
 		if c.Shape == shapeG2 {
 			pk = "gateway(" + p.Gateway + ")"
+		}
+		if c.Shape == shapeS2 {
+			pk = "gateway(two-servers)"
 		}
 		key := fmt.Sprintf("order|%s:%d|%s|at=%s", pk, l.Port, parts[0], at)
 		desc := fmt.Sprintf("case {%s}; %s listener %d; virtual host %q of %s has routes %v: %s", c, p.Kind, l.Port, vh.GetName(), vsn, gotNames, why)
@@ -600,7 +662,7 @@ func enumerate(thorough bool) (cases []caseSpec, spaces map[string]int) {
 		spaces[space]++
 	}
 	nM := 0 // the alternatives that name the second Gateway (appended last) only occur in shape G2
-	for nM < len(matchAlphabet) && !matchAlphabet[nM].G2Only {
+	for nM < len(matchAlphabet) && !matchAlphabet[nM].Extra {
 		nM++
 	}
 	nA := quickActions
@@ -719,7 +781,7 @@ func enumerate(thorough bool) (cases []caseSpec, spaces map[string]int) {
 		if m.G2 {
 			g2 = append(g2, i)
 		}
-		if m.G2Only {
+		if m.Extra {
 			g2only = append(g2only, i)
 		}
 	}
@@ -763,6 +825,63 @@ func enumerate(thorough bool) (cases []caseSpec, spaces map[string]int) {
 					add("g2-pair", g2case(first, ruleSpec{m1, 0}, ruleSpec{m2, 3}))
 					add("g2-pair", g2case(first, ruleSpec{m2, 3}, ruleSpec{m1, 0}))
 				}
+			}
+		}
+	}
+
+	// (5) one Gateway with two servers on one port, the enumerated VirtualService spanning one host of
+	//     each and older than the per-host VirtualServices (shape S2): lists of length 1..3.
+	var s2 []int
+	for i, m := range matchAlphabet {
+		if m.S2 {
+			s2 = append(s2, i)
+		}
+	}
+	s2case := func(rules ...ruleSpec) caseSpec {
+		return caseSpec{Shape: shapeS2, Svc: true, DR: true, Bind: bindBoth, Rules: rules}
+	}
+	for _, m1 := range s2 {
+		for a := 0; a < quickActions; a++ {
+			add("s2-single", s2case(ruleSpec{m1, a}))
+		}
+		for _, m2 := range s2 {
+			ra1 := m1 % quickActions
+			ra2 := (ra1 + 1 + m2%(quickActions-1)) % quickActions
+			add("s2-pair", s2case(ruleSpec{m1, ra1}, ruleSpec{m2, ra2}))
+			if thorough {
+				for a1 := 0; a1 < quickActions; a1++ {
+					for a2 := 0; a2 < quickActions; a2++ {
+						if a1 != a2 && !(a1 == ra1 && a2 == ra2) {
+							add("s2-pair", s2case(ruleSpec{m1, a1}, ruleSpec{m2, a2}))
+						}
+					}
+				}
+			}
+			for _, m3 := range s2 {
+				rot := (m1 + m2 + m3) % quickActions
+				add("s2-triple", s2case(ruleSpec{m1, rot}, ruleSpec{m2, (rot + 1) % quickActions}, ruleSpec{m3, (rot + 2) % quickActions}))
+			}
+		}
+	}
+
+	// (6) a registry service whose name equals a Kubernetes short form of another service (shape K):
+	//     all single rules, pairs over the core alphabet (thorough: all pairs), the VirtualService on
+	//     either of the two services.
+	for _, short := range []bool{false, true} {
+		kcase := func(rules ...ruleSpec) caseSpec {
+			return caseSpec{Shape: shapeK, Svc: false, DR: true, Bind: bindBoth, Rules: rules, KShort: short}
+		}
+		for m1 := 0; m1 < nM; m1++ {
+			for a := 0; a < quickActions; a++ {
+				add("k-single", kcase(ruleSpec{m1, a}))
+			}
+			for m2 := 0; m2 < nM; m2++ {
+				if !thorough && !(matchAlphabet[m1].Core && matchAlphabet[m2].Core) {
+					continue
+				}
+				ra1 := m1 % quickActions
+				ra2 := (ra1 + 1 + m2%(quickActions-1)) % quickActions
+				add("k-pair", kcase(ruleSpec{m1, ra1}, ruleSpec{m2, ra2}))
 			}
 		}
 	}
